@@ -11,10 +11,10 @@ META = dict(
 
 def run(ctx):
     if ctx.quick:
-        mcs = [("{1,2}", 2, 1, 1, '{"wrapped"}'), ("{1,2}", 2, 2, 1, '{"wrapped"}'),
-               ("{1}", 3, 1, 2, '{"wrapped","self"}'), ("{1}", 2, 1, 3, '{"wrapped","self"}')]
+        mcs = [("{1,2}", 2, 1, 1, '{"wrapped"}'), ("{1,2}", 1, 1, 2, '{"wrapped","self"}'),
+               ("{1}", 3, 1, 2, '{"wrapped","self"}'), ("{1}", 2, 2, 3, '{"wrapped","self"}')]
     else:
-        mcs = [("{1,2}", 2, 1, 2, '{"wrapped","self"}'), ("{1,2}", 2, 2, 2, '{"wrapped","self"}'),
+        mcs = [("{1,2}", 2, 1, 2, '{"wrapped","self"}'), ("{1,2}", 2, 2, 1, '{"wrapped","self"}'),
                ("{1,2}", 2, 1, 3, '{"wrapped"}'), ("{1}", 3, 1, 3, '{"wrapped","self"}')]
     for conns, maxreq, conc, writes, kinds in mcs:
         ctx.tlc_mc("server", "TimeoutHandlerMC", "TimeoutHandlerMC.cfg",
@@ -30,6 +30,6 @@ def run(ctx):
         ctx.validate_traces("server", "TimeoutHandlerTrace", f, label=f.rsplit("/", 1)[-1])
     ctx.rule = ("one execution = one Server lifetime with 1-2 connections x 1-4 requests through TimeoutWithCodeHandler "
                 "(or a self-timeout handler) whose handler mutates the response 0-3 times around the timeout; all non-trivial")
-    ctx.assumptions = ["model constants: 2 connections x 2 requests (or 1 x 3), Concurrency 1/2, up to 3 mutations per handler, 6 ctx objects",
+    ctx.assumptions = ["model constants: quick 2 connections x 2 requests (Concurrency 1, 1 mutation), 2 x 1 and 1 x 3 / 1 x 2 (up to 3 mutations, self-timeouts, Concurrency 1/2); thorough 2 x 2 with Concurrency 1 (2-3 mutations) and 2 (1 mutation) incl. self-timeouts; 6 ctx objects",
                        "pooled ctxs are indistinguishable (invariant PoolClean), so the model fixes sync.Pool's choice; traces accept any pooled ctx",
                        "real-code schedules are sampled (seeded scripts), not exhaustive"]
